@@ -67,6 +67,23 @@ impl Country {
         None
     }
 
+    /// Verification hook (only with `--cfg opening_hours_verif`): for the public and the school
+    /// database, the region list and the embedded compressed bytes, exactly as
+    /// [`Country::holidays`] hands them to `decode_holidays_db`.
+    #[cfg(opening_hours_verif)]
+    pub fn verif_holiday_db() -> [(&'static str, &'static [u8]); 2] {
+        [
+            (
+                env!("HOLIDAYS_PUBLIC_REGIONS"),
+                include_bytes!(env!("HOLIDAYS_PUBLIC_FILE")),
+            ),
+            (
+                env!("HOLIDAYS_SCHOOL_REGIONS"),
+                include_bytes!(env!("HOLIDAYS_SCHOOL_FILE")),
+            ),
+        ]
+    }
+
     /// Load holidays for this country from a compact embedded database.
     ///
     /// ```
